@@ -101,6 +101,9 @@ def wrap_words(rng, escaped_words, style_open, style_close, wrap):
     return s
 
 
+_READERS = {}
+
+
 def bounded(ctx, b):
     rng = random.Random(ctx.seed)
     n = 150 if not ctx.thorough else 2500
@@ -147,7 +150,8 @@ def bounded(ctx, b):
                 exp = [[norm(f"{voice}: {lines[0]}")] + [norm(x) for x in lines[1:]] for lines in cues]
 
             def one(R=R, doc=doc, lang=lang, exp=exp, fmt=fmt):
-                caps = R().read(doc).get_captions(lang)
+                # (one reader object per format for all documents of the run: the text read depends on the document only)
+                caps = _READERS.setdefault(R, R()).read(doc).get_captions(lang)
                 got = [[norm(x) for x in c_.get_text().split("\n")] for c_ in caps]
                 return got == exp, {"format": fmt, "read": got, "expected": exp, "doc": doc[-700:]}
             b.guard((fmt, i), one, sample={"format": fmt, "lines": cues, "wrapped": wrap})
@@ -207,6 +211,12 @@ def bounded_webvtt_tags(ctx, b):
                     exp = f"say {tag}hello" + (f"</{name}>" if close else "") + " & bye"
                 b.guard(("tag", text), lambda text=text, exp=exp: (r._decode(text) == exp, {"cue_text": text, "decoded": r._decode(text), "expected": exp}),
                         sample=text if name == "b-roll" and suf == "" and close else None)
+    # several voice spans on one line: each becomes its own 'Name: ' prefix
+    for text, exp in [("<v Bob>Hi!</v> <v Ann>Hello, <i>Bob</i>.</v>", "Bob: Hi! Ann: Hello, Bob."),
+                      ("<v.loud Bob>one <v Mary Ann>two <v.a.b C>three", "Bob: one Mary Ann: two C: three"),
+                      ("<v A>x</v><v A>y</v>", "A: xA: y"), ("- <v Bob>yes - <v\tAnn>no", "- Bob: yes - Ann: no")]:
+        b.guard(("voices", text), lambda text=text, exp=exp: (r._decode(text) == exp, {"cue_text": text, "decoded": r._decode(text), "expected": exp}),
+                sample=text)
 
 
 def _vtt_once(s):
